@@ -277,8 +277,12 @@ func c07representable(h *sam.Header) bool {
 		return true
 	}
 	n := 0
-	h.Tags(func(t sam.Tag, v string) { n++ })
-	return n == 1 && h.SortOrder == sam.UnknownOrder && h.GroupOrder == sam.GroupUnspecified
+	h.Tags(func(t sam.Tag, v string) {
+		if s := t.String(); s != "VN" && s != "SO" && s != "GO" {
+			n++
+		}
+	})
+	return n == 0 && h.SortOrder == sam.UnknownOrder && h.GroupOrder == sam.GroupUnspecified
 }
 
 func c07oracle(w *c07world) (viol []string) {
@@ -357,6 +361,8 @@ func c07oracle(w *c07world) (viol []string) {
 		}
 		// serialisation round trips
 		if !c07representable(h) {
+			// the histories never set an @HD field without a version themselves
+			add("hd-unrepresentable h%d: SO %v GO %v or other @HD tags are set but there is no version to carry them", hi, h.SortOrder, h.GroupOrder)
 			continue
 		}
 		t, _ := h.MarshalText()
